@@ -47,6 +47,16 @@ def cases(draw, tier):
         'value_perms': {n: (list(draw(st.permutations(list(range(s))))) if s > 1 and draw(st.booleans()) else list(range(s))) for n, s in spec['node_labels'].items()},
     }
     configs = [[draw(st.sampled_from(KINDS)), draw(st.sampled_from(METHODS))] for _ in range(3 if tier == 'quick' else 6)]
+    # duplicate-production scenario (no extra draws, so the stream of the other cases is unchanged): every fourth spec lists its last
+    # rule twice (legal: the production counts twice), the copy is presented with the same node and edge order, and all ids are explicit
+    # and unique per rule only -- the two rules are then equal *objects* (Graph.__eq__ compares ids), which must not make one disappear
+    # (seeded change C12-9)
+    if nr and (nr + len(spec['terminals'])) % 4 == 0:
+        import copy
+        spec['rules'].append(copy.deepcopy(spec['rules'][-1]))
+        tr['rule_perm'].insert(tr['rule_perm'].index(nr - 1) + 1, nr)
+        tr['node_perms'].append(list(tr['node_perms'][nr - 1])); tr['edge_perms'].append(list(tr['edge_perms'][nr - 1]))
+        tr['explicit_ids'] = True; tr['per_rule_ids'] = True
     return {'spec': spec, 'transform': tr, 'configs': configs}
 
 
@@ -119,7 +129,7 @@ def check(case, ctx):
     ctx.label('t:rule-order' if t_rule else None, 't:node-order' if t_node else None, 't:edge-order' if t_edge else None,
               't:ids' if tr['explicit_ids'] else None, 't:names' if tr['rename_nl'] or tr['rename_el'] else None, 't:value-perm' if t_val else None,
               't:range-domains' if tr['range_domains'] else None, 't:start-last' if tr.get('start_last') and len({r['lhs'] for r in spec['rules']}) > 1 else None,
-              'dead-rule-first' if 'D' in spec['nonterminals'] else None, 'nonlinear-tail' if any(n.startswith('tz') for n in spec['terminals']) else None)
+              'duplicate-production' if tr.get('per_rule_ids') else None, 'dead-rule-first' if 'D' in spec['nonterminals'] else None, 'nonlinear-tail' if any(n.startswith('tz') for n in spec['terminals']) else None)
     start = spec['start']; stype = spec['nonterminals'][start]
     # references
     def reference(kind):
@@ -142,7 +152,7 @@ def check(case, ctx):
         try:
             f1, i1 = gen_fgg.build(spec, kind, dtype)
             f2, i2 = gen_fgg.build(spec2, kind, dtype, explicit_ids=tr['explicit_ids'], range_domains=tr['range_domains'],
-                                   node_prefix=tr['id_prefix'], edge_prefix=tr['id_prefix'] + 'e', start_last=tr.get('start_last', False))
+                                   node_prefix=tr['id_prefix'], edge_prefix=tr['id_prefix'] + 'e', start_last=tr.get('start_last', False), per_rule_ids=tr.get('per_rule_ids', False))
         except Exception as e:
             ctx.violation('build-failed', f'{type(e).__name__}: {e}'); return
         want_grad = kind in ('real', 'log')
@@ -218,7 +228,7 @@ def check(case, ctx):
         try:
             f1, _ = gen_fgg.build(specv, 'viterbi', torch.float64)
             f2, _ = gen_fgg.build(specv2, 'viterbi', torch.float64, explicit_ids=tr['explicit_ids'], range_domains=tr['range_domains'],
-                                  node_prefix=tr['id_prefix'], edge_prefix=tr['id_prefix'] + 'e', start_last=tr.get('start_last', False))
+                                  node_prefix=tr['id_prefix'], edge_prefix=tr['id_prefix'] + 'e', start_last=tr.get('start_last', False), per_rule_ids=tr.get('per_rule_ids', False))
             a2 = tuple(tr['value_perms'][nl][v] for nl, v in zip(stype, a))
             vsr = fggs.ViterbiSemiring(dtype=torch.float64)
             d1 = ctx.call('viterbi[original]', fggs.viterbi, f1, tuple(a), semiring=vsr)
